@@ -30,8 +30,15 @@ C08_THEOREMS = []
 LEAN_MODULES = []
 CPU = "all-cpus-sweep"
 NAME = "sweep over all CPUs (exploration only)"
-MODELLED = "nothing (property-level oracles on the real code: round trips, length/locality/tiling, no golden outputs)"
-NOT_MODELLED = "all back ends of cpu_list are only explored here, deterministic input sets (see tools/cpu_sweep.py)"
+MODELLED = ("NOTHING: this part is EXPLORATION, not proof - no Lean model and no theorem; property-level oracles run on the "
+            "real code of every back end of cpu_list over fixed input sets (round trips, value tracking, "
+            "length/locality/tiling; never golden outputs); a failure that known_findings_sweep.json does not name is a "
+            "VIOLATION, the absence of failures proves nothing beyond the inputs that were run")
+NOT_MODELLED = ("every back end other than the modelled ones is only explored: corpus statements x boundary values of "
+                "their literals, every 16-bit pattern (+ fixed tails, two offsets), three byte blocks per CPU for the "
+                "range walk, four CPUs x nine page geometries for naken_util -disasm (tools/cpu_sweep.py, "
+                "notes/sweep.md)")
+ONLY_CPUS = None      # replay: restrict the sweeps to these CPUs
 A0 = 0x1000
 TAIL = "00112233445566778899aabbccdd"
 HERE = os.path.dirname(os.path.dirname(os.path.abspath(__file__)))
@@ -79,7 +86,7 @@ def known_members(prop):
 def corpus_cpus():
     """CPUs that have a statement corpus; NV_SWEEP_ONLY=<cpu,cpu> restricts them (development aid, never set by a check)"""
     only = os.environ.get("NV_SWEEP_ONLY")
-    return [c for c in S.cpus() if not only or c in only.split(",")]
+    return [c for c in S.cpus() if (not only or c in only.split(",")) and (ONLY_CPUS is None or c in ONLY_CPUS)]
 
 
 def heavy(ctx, lines):
@@ -94,8 +101,17 @@ def cpu_table(ctx):
     out = []
     for item in a.split(","):
         n, bpa, endian = item.split(":")
-        out.append((n, max(1, int(bpa))))
+        if ONLY_CPUS is None or n in ONLY_CPUS:
+            out.append((n, max(1, int(bpa))))
     return out
+
+
+def _with_replay(orc, prop, start):
+    """every failure this module added since index `start` gets a replay record (re-run of the sweep on its CPU)"""
+    for f in orc["failures"][start:]:
+        p = f["sig"].split(":")
+        if len(p) > 2:
+            f["replay"] = {"cpu": "sweep", "prop": prop, "only": p[2], "sig": f["sig"]}
 
 
 # ---------------------------------------------------------------------------------------------
@@ -227,6 +243,12 @@ def c01_correspondence(ctx, corr):
 
 
 def c01_oracle(ctx, orc):
+    _start = len(orc["failures"])
+    _c01_oracle(ctx, orc)
+    _with_replay(orc, "C01", _start)
+
+
+def _c01_oracle(ctx, orc):
     recs = round_trip(ctx, not ctx.quick())
     fails = collections.OrderedDict()
 
@@ -334,6 +356,12 @@ def same_value(p, w):
 
 
 def c06_oracle(ctx, orc):
+    _start = len(orc["failures"])
+    _c06_oracle(ctx, orc)
+    _with_replay(orc, "C06", _start)
+
+
+def _c06_oracle(ctx, orc):
     # (1) a literal N and N + 2^k are never accepted with the same encoding
     lines, meta = c06_lines()
     ans = ctx.impl(lines)
@@ -528,6 +556,12 @@ def c07_prefix_pass(ctx, orc, fails):
 
 
 def c07_oracle(ctx, orc):
+    _start = len(orc["failures"])
+    _c07_oracle(ctx, orc)
+    _with_replay(orc, "C07", _start)
+
+
+def _c07_oracle(ctx, orc):
     thorough = not ctx.quick()
     fails = collections.OrderedDict()
     # (1) byte strings from the corpus: encodings of the statements and of their boundary variants, single-bit flips
@@ -754,6 +788,12 @@ def line_step(c, ad, start, end, blk, lens):
 
 
 def c08_oracle(ctx, orc):
+    _start = len(orc["failures"])
+    _c08_oracle(ctx, orc)
+    _with_replay(orc, "C08", _start)
+
+
+def _c08_oracle(ctx, orc):
     cpus = cpu_table(ctx)
     maxlen = maxlen_table()
     known = known_members("C08")
@@ -887,6 +927,8 @@ def util_page_walk(ctx, orc):
     tmp = ctx.tmpdir()
     runs = 0
     for cpu, nop, bpa in UTIL_CPUS:
+        if ONLY_CPUS is not None and cpu not in ONLY_CPUS:
+            continue
         for gi, (start, size) in enumerate(GEOMETRIES):
             size -= size % len(nop)
             path = os.path.join(tmp, "pw_%s_%d.bin" % (cpu, gi))
@@ -917,9 +959,19 @@ def util_page_walk(ctx, orc):
                     "observed": "rc=%d, %d lines, %d missing (first %s), %d unexpected, %d repeated" % (
                         rc, len(addrs), len(miss), ["%x" % x for x in miss[:3]], len(extra), dup),
                     "what": "whole-image disassembly does not tile the image",
-                    "replay": {"cpu": "sweep", "kind": "util", "util_cpu": cpu, "start": start, "size": size}})
+                    })
     return runs
 
 
 def replay(ctx, r):
-    return []
+    """re-run the sweep of the recorded property on the recorded CPU; the failures with the recorded signature"""
+    global ONLY_CPUS
+    if r.get("kind") == "util":          # records written before replay records were uniform
+        r = {"prop": "C08", "only": r.get("util_cpu"), "sig": None}
+    ONLY_CPUS = set([r["only"]])
+    try:
+        orc = {"cases": 0, "failures": [], "stats": {}}
+        globals()["_" + r["prop"].lower() + "_oracle"](ctx, orc)
+    finally:
+        ONLY_CPUS = None
+    return [f for f in orc["failures"] if r.get("sig") is None or f["sig"] == r["sig"] or f["sig"].startswith(r["sig"] + ":")]
